@@ -10,6 +10,7 @@ writer / reader models vs the implementation on gated grids and documents.
 Search on the implementation: the invariant after every step, upgrade, refusal with
 unchanged state, both writers, both readers, and agreement of the five decisions on
 official and non-official version strings."""
+import copy
 import json
 import random
 
@@ -501,6 +502,34 @@ def run(ctx):
             ctx.coverage['disagreements_checked'] += 1
             ctx.violation('correspondence-broken', 'JSON reader model says %s, implementation %s' % (m, res), dict(rep, component='jparse'))
             break
+
+    # ---- 5b. the scalar entry points of both readers take the same decision as the document readers
+    for ver in [v for v in VERSIONS if v] + MORE_VERSIONS:
+        try:
+            p3 = pre3(ver)
+        except Exception:  # noqa
+            continue
+        cases = [(h.MODE_ZINC, c, c in ZINC_V3, 'text') for c in ZINC_V3 + ZINC_PLAIN]
+        for c in JSON_V3 + JSON_PLAIN:
+            cases.append((h.MODE_JSON, c, c in JSON_V3, 'decoded'))
+            cases.append((h.MODE_JSON, json.dumps(c), c in JSON_V3, 'text'))
+        for mode, c, v3, form in cases:
+            ctx.coverage['evaluations'] += 1
+            ctx.count('scalar-reader:%s' % mode)
+            rep = {'version': ver, 'mode': mode, 'scalar': c if isinstance(c, str) else json.dumps(c), 'form': form}
+            try:
+                val = h.parse_scalar(copy.deepcopy(c), mode=mode, version=ver)
+                res = 'ok'
+            except ValueError:
+                res = 'ValueError'
+            except Exception as e:  # noqa
+                res = type(e).__name__
+            if p3 and v3 and res == 'ok':
+                ctx.violation('impl-counterexample', 'the %s scalar reader accepted the 3.0-only construct %s (%s) under version %s' % (mode, rep['scalar'][:60], form, ver), rep)
+                return
+            if not (p3 and v3) and res != 'ok':
+                ctx.violation('impl-counterexample', 'the %s scalar reader refused (%s) %s under version %s' % (mode, res, rep['scalar'][:60], ver), rep)
+                return
 
     # ---- 6. the five decisions agree, version by version
     for ver in [v for v in VERSIONS if v] + MORE_VERSIONS:
